@@ -44,6 +44,11 @@ func ruleBigWrappers(w *World, r *RuleResult) {
 			r.ok(key, w.pos(f.Pos()), "tabled: "+why, false)
 			continue
 		}
+		if !w.bigIntHasMethod(f.Name()) {
+			// not a mirror of a math/big method (a convenience composed from the wrappers): nothing to agree with
+			r.ok(key, w.pos(f.Pos()), "math/big.Int has no method of this name: not part of the mirrored API", false)
+			continue
+		}
 		var calls []*ssa.Call
 		for _, c := range callsIn(f) {
 			if cc, ok := c.(*ssa.Call); ok && strings.HasPrefix(w.calleeName(cc), "(*math/big.Int).") {
@@ -354,6 +359,15 @@ func ruleNoNegativeZero(w *World, r *RuleResult) {
 		ok := false
 		for _, c := range w.callsTo(f, "(*BigInt).updateInnerFromUint64") {
 			neg := c.Common().Args[2]
+			// neg := x < 0 written directly
+			if bo, isB := neg.(*ssa.BinOp); isB {
+				if k, isK := bo.Y.(*ssa.Const); isK && ci(k) == 0 && bo.Op == token.LSS && bo.X == ssa.Value(f.Params[1]) {
+					ok = true
+				}
+				if k, isK := bo.X.(*ssa.Const); isK && ci(k) == 0 && bo.Op == token.GTR && bo.Y == ssa.Value(f.Params[1]) {
+					ok = true
+				}
+			}
 			if phi, isPhi := neg.(*ssa.Phi); isPhi {
 				allOK := true
 				for i, e := range phi.Edges {
@@ -450,7 +464,7 @@ func (w *World) negConditionedOnMagnitude(f *ssa.Function, neg, mag ssa.Value, b
 // of C16.R3).
 func (w *World) sameSignSum(f *ssa.Function, rt *ssa.Return) bool {
 	for _, g := range guardsAt(rt.Block()) {
-		if bo, ok := g.Cond.(*ssa.BinOp); ok && bo.Op == token.EQL && g.Val {
+		if bo, ok := g.Cond.(*ssa.BinOp); ok && (bo.Op == token.EQL && g.Val || bo.Op == token.NEQ && !g.Val) {
 			l, r := w.exprOf(f, bo.X).String(), w.exprOf(f, bo.Y).String()
 			if (l == "xNeg" && r == "yNeg") || (l == "yNeg" && r == "xNeg") {
 				// and the returned sign is xNeg (or yNeg) itself
@@ -460,4 +474,20 @@ func (w *World) sameSignSum(f *ssa.Function, rt *ssa.Return) bool {
 		}
 	}
 	return false
+}
+
+// bigIntHasMethod reports whether *math/big.Int has a method with this name.
+func (w *World) bigIntHasMethod(name string) bool {
+	for _, imp := range w.Pkg.Types.Imports() {
+		if imp.Path() != "math/big" {
+			continue
+		}
+		obj := imp.Scope().Lookup("Int")
+		if obj == nil {
+			return true
+		}
+		ms := types.NewMethodSet(types.NewPointer(obj.Type()))
+		return ms.Lookup(imp, name) != nil
+	}
+	return true
 }
